@@ -27,7 +27,9 @@ CLAIMED = {
           "(evidence: round_trip_theorem_side_conditions). Also proved and re-checked against generated facts on every run: the operator table dumped from the impl "
           "equals README.md's table (+ `in`), setters are exactly the right-associative level-20 operators (C02_table, C02_fixity_sets, C02_table_wf); the two-"
           "operator, prefix, postfix and `not` clauses for arbitrary tables (C02_two_operators, C02_prefix_tighter_than_infix, C02_postfix_tighter_than_prefix, "
-          "C02_not_infix); parentheses override the default grouping, for every tree with explicit parenthesis nodes (C02_parens_override); the built-in table meets all hypotheses (C02_builtins_wf). Every run additionally decides grouping by an executable spec of the "
+          "C02_not_infix); parentheses override the default grouping, for every tree with explicit parenthesis nodes (C02_parens_override); the built-in table meets all hypotheses (C02_builtins_wf). EVERY ACCEPTED PARSE IS THE DOCUMENTED GROUPING "
+          "(C02_every_accepted_parse_is_the_documented_grouping, from Lemmas/PrattComplete.v): the tree of any accepted text is well-formed, its minimal explicit spelling is "
+          "grammatical and parses back to it - the parser has no grouping of its own. Every run additionally decides grouping by an executable spec of the "
           "documented rules against impl and model: all ordered operator pairs x {plain, not} x 3 shapes exhaustively + random trees. " + TIE,
           "Coq kernel + vm_compute for the generated-fact equalities; Parser.v/Printer.v/Etoks.v hand-written and tied by correspondence; the documented grouping "
           "rules as Python oracle (vlib/props/progs.py).",
